@@ -119,8 +119,13 @@ def r_rebuild(ck: Checker) -> None:
     func = ck.func(f"{LC}.rebuild")
     it = ck.interp(func)
     rb = func.params()[1]
-    lits = resolved_calls(ck.prg, func, "clingo.ast.Literal")
+    all_lits = resolved_calls(ck.prg, func, "clingo.ast.Literal")
+    lits = [c for c in all_lits if "SymbolicAtom(Function(" in unparse(c).replace(" ", "")]
     ck.need(len(lits) == 3, "rebuild inserts the aux atom into body / conditional / aggregate element")
+    for c in all_lits:
+        if not any(c is x for x in lits):
+            ck.add("rebuilt parts are updates of the original literal, never built anew", False, func, c, f"`{short(unparse(c), 90)}` constructs a literal from scratch",
+                   "the sign of the original literal (`not 6 <= #sum{..}`) and its location are lost")
     for lit in lits:
         txt = unparse(lit).replace(" ", "")
         ok = txt == f"Literal(LOC,Sign.NoSign,SymbolicAtom(Function(LOC,{func.params()[2]},{func.params()[3]},False)))"
@@ -156,6 +161,43 @@ def r_rebuild(ck: Checker) -> None:
                "the aux atom stands for the set only where it was inserted: inside a condition it does not cover an equal literal at body level, so nothing else may disappear from the body")
 
 
+def r_filter(ck: Checker) -> None:
+    """TABLE _filter_occurences: a candidate set survives only if its literals are connected through shared global
+    variables and the connected part covers all of them"""
+    func = ck.func(f"{LC}._filter_occurences")
+    apps = [c for c in attr_calls(func, "append") if enclosing_loop(func, c) is not None]
+    ck.need(len(apps) >= 1, "rejected sets are collected in a list")
+    lst = unparse(apps[0].func.value)  # type: ignore[attr-defined]
+    apps = [c for c in apps if unparse(c.func.value) == lst]  # type: ignore[attr-defined]
+    loop = enclosing_loop(func, apps[0])
+    while loop is not None and enclosing_loop(func, loop) is not None:
+        loop = enclosing_loop(func, loop)
+    ck.need(loop is not None and isinstance(loop, ast.For), "loop over the candidate sets")
+    dels = [d for d in find_nodes(func.node, lambda n: isinstance(n, ast.Delete)) if unparse(d.targets[0]).startswith("self.occurences[")]  # type: ignore[attr-defined]
+    okd = len(dels) == 1 and (dl := enclosing_loop(func, dels[0])) is not None and unparse(dl.iter) == lst
+    ck.add("every collected set is deleted from the candidates", okd, func, dels[0] if dels else func.node, f"`{fmt(dels[0]) if dels else None}` in a loop over `{lst}`: {okd}", "")
+    it0 = ck.interp(func)
+    comps = [a for a in find_nodes(func.node, lambda n: isinstance(n, ast.Assign)) if "connected_components(" in unparse(a.value)]  # type: ignore[attr-defined]
+    ck.need(len(comps) == 1 and isinstance(comps[0].targets[0], ast.Name), "connected components of the variable graph are computed once")  # type: ignore[attr-defined]
+    cc = comps[0].targets[0].id  # type: ignore[attr-defined]
+    site = apps[0]
+    ncc = next(iter(it0.texts(site, ast.parse(f"len({cc})", mode="eval").body)))
+    sub_ = next(iter(it0.texts(site, ast.parse(f"set({cc}[0]) < all_vars", mode="eval").body)))
+    nvars = next(iter(it0.texts(site, ast.parse("len(all_vars) > 1", mode="eval").body)))
+    rows = [
+        ("two or more components", {ncc: "2"}, {}, True, "literals that share no global variable form a cross product: the aux rule would be a product of unrelated literals"),
+        ("no edge at all but several variables", {ncc: "0"}, {nvars: True}, True, "several single-variable literals without a common variable are a cross product as well"),
+        ("no edge, at most one variable", {ncc: "0"}, {nvars: False}, False, ""),
+        ("one component that misses a variable", {ncc: "1"}, {sub_: True}, True, "an isolated variable (it never becomes a node) is not joined with the rest: e.g. `rate(K,R), S = #sum{P,I : bought(C,I,P)}`"),
+        ("one component covering all variables", {ncc: "1"}, {sub_: False}, False, ""),
+    ]
+    for title, vals, facts, want, why in rows:
+        itp = ck.interp(func, Pins.of(vals=vals, facts=facts), mark_stmts={id(enclosing_stmt(func, a)): "rm" for a in apps}, clear_marks_at={id(loop): "rm"})
+        back = itp.loop_back.get(id(loop), [])
+        got = {"rm" in st.marks for st in back}
+        ck.add(f"{title}: {'rejected' if want else 'kept'}", got == {want}, func, loop, f"set rejected: {sorted(got)}; required: {want}", why or "a connected set must stay a candidate (otherwise the pass does nothing)", nontrivial=want)
+
+
 def r_execute(ck: Checker) -> None:
     func = ck.func("literal_duplication:LiteralDuplicationTranslator.execute")
     it = ck.interp(func)
@@ -175,5 +217,6 @@ RULES = [
     Rule("C10.B.process", P + ("C07",), r_process),
     Rule("C10.renaming", P, r_renaming),
     Rule("C10.rebuild", P, r_rebuild),
+    Rule("C10.TABLE.filter", P, r_filter),
     Rule("C10.execute", P, r_execute),
 ]
